@@ -14,6 +14,7 @@ import AgpTpf.Model.Cache
 import AgpTpf.Model.Cli
 import AgpTpf.Model.Outputs
 import AgpTpf.Model.CliPlan
+import AgpTpf.Model.Pretext
 open Lean AgpTpf
 
 abbrev D := Except String
@@ -391,6 +392,20 @@ def hCliPlan (j : Json) : D Json := do
     ("report", jarr (fun (r : ReportRow) => Json.arr #[jstr r.assembly, jstr r.seqName, jstr r.chromosome, Json.bool r.localised,
                        jopt jstr r.pretextScaffold, jint r.length, jint r.lengthMinusGaps]) report)])
 
+/-- the PretextView script model (spec side, Model/Pretext.lean): is the script well-formed, and which map does it denote -/
+def hScript (j : Json) : D Json := do
+  let input ← (← getA j "input").mapM decScaffold
+  let sj ← j.getObjVal? "script"
+  let scafs ← (← getA sj "scafs").mapM (fun v => do
+    pure ({ present := ← getB v "present", T := (← getI v "T").toNat, cuts := ← getNL v "cuts" } : Pretext.ScafScript))
+  let groups ← (← getA sj "groups").mapM (fun g => do
+    let items ← (← getA g "items").mapM (fun v => do
+      pure ({ sc := (← getI v "sc").toNat, k := (← getI v "k").toNat, minus := ← getB v "minus" } : Pretext.Placed))
+    pure ({ items := items, painted := ← getB g "painted" } : Pretext.Group))
+  let s : Pretext.Script := { p := (← getI sj "p").toNat, q := (← getI sj "q").toNat, scafs := scafs, groups := groups }
+  pure (Json.mkObj [("wf", Json.bool (Pretext.wfScript input s)), ("err_len", jnat (Pretext.errLen s.p s.q)),
+                    ("ptx", jarr encScaffold (Pretext.ptxOf input s))])
+
 def dispatch (j : Json) : D Json := do
   let kind ← getS j "kind"
   match String.ofList kind with
@@ -420,6 +435,7 @@ def dispatch (j : Json) : D Json := do
   | "outputs" => hOutputs j
   | "pathparse" => hPathParse j
   | "cliplan" => hCliPlan j
+  | "script" => hScript j
   | k => throw s!"unknown kind {k}"
 
 partial def loop (h : IO.FS.Stream) (out : IO.FS.Stream) : IO Unit := do
